@@ -482,6 +482,9 @@ def cross_package_map(ctx, rule):
                 return isinstance(t, ast.Compare) and len(t.ops) == 1 and isinstance(t.ops[0], ops) and {src(t.left), src(t.comparators[0])} <= CH \
                     and src(t.left).split('.')[0] != src(t.comparators[0]).split('.')[0]
             same = _imp2(_rcs(p, keep=set(f.params)), lambda t: _pk(t, ast.Is), lambda t: _pk(t, ast.IsNot))
+            if same is None:
+                from ..pathcond import entailed as _ent
+                same = _ent(_rcs(p, keep=set(f.params)), lambda t: _pk(t, ast.Is), lambda t: _pk(t, ast.IsNot))
             if same is not False:
                 continue
             pair = None      # texts of the (left, right) index of the overlap: two locals, or N[0] / N[1] of the local the pair is kept in
@@ -539,6 +542,9 @@ def cross_package_map(ctx, rule):
             if p.raised:
                 continue
             same = _imp2(_rcs(p, keep=set(f.params)), lambda t: _pk2(t, ast.Is), lambda t: _pk2(t, ast.IsNot))
+            if same is None:
+                from ..pathcond import entailed as _ent
+                same = _ent(_rcs(p, keep=set(f.params)), lambda t: _pk2(t, ast.Is), lambda t: _pk2(t, ast.IsNot))
             for e in p.events:
                 if e.kind != 'call' or not e.target.endswith('.copy_like'):
                     continue
